@@ -52,3 +52,10 @@ fn raw(p: *const ()) -> RawWaker {
     static VT: RawWakerVTable = RawWakerVTable::new(clone, wake, wake, drop);
     RawWaker::new(p, &VT)
 }
+
+/// Helper for the "well-formed input" harnesses: views bytes that the caller has constrained to
+/// ASCII as &str without branching on their (symbolic) content.
+pub fn ascii_unchecked(v: &[u8]) -> &str {
+    // SAFETY: callers assume every byte < 0x80 (see utf8_assume_ascii_stub in the harnesses).
+    unsafe { core::str::from_utf8_unchecked(v) }
+}
